@@ -63,7 +63,7 @@ func init() {
 			eachInstr(rm, func(ins ssa.Instruction) {
 				if b, ok := ins.(*ssa.BinOp); ok && b.Op == token.LSS {
 					p := accessPath(b.Y)
-					if strings.Contains(p, "builtin len(") && strings.Contains(p, "int(d.maxFileAmount)") && strings.HasSuffix(p, "+ 1)") && strings.Contains(p, " - ") {
+					if strings.Contains(p, "builtin len(") && strings.Contains(p, "int({DefaultMetricLogWriter}.maxFileAmount)") && strings.HasSuffix(p, "+ 1)") && strings.Contains(p, " - ") {
 						bound = true
 					}
 				}
@@ -112,7 +112,7 @@ func init() {
 					return
 				}
 				cc := canonCond(ifi.Cond, true)
-				if strings.HasPrefix(cc, "d.latestOpSec < ") {
+				if strings.HasPrefix(cc, "{DefaultMetricLogWriter}.latestOpSec < ") {
 					first := ifi.Block().Succs[0].Instrs[0]
 					if first == idxCall {
 						ok = true
@@ -144,9 +144,9 @@ func init() {
 					n++
 					okS := instrDominates(linesCall, st)
 					if okS {
-						_, okS = anyFact(canonFacts(st.Block()), "writeItemsAndFlush(items)", " == nil")
+						_, okS = anyFact(canonFacts(st.Block()), ".writeItemsAndFlush(", " == nil")
 						if !okS {
-							_, okS = anyFact(canonFacts(st.Block()), "nil == ", "writeItemsAndFlush(items)")
+							_, okS = anyFact(canonFacts(st.Block()), "nil == ", ".writeItemsAndFlush(")
 						}
 					}
 					c.Check(okS, fmt.Sprintf("%s / latestOpSec#%d", fnKey(w), n), st.Pos(), "latestOpSec advances only after the lines were written successfully")
